@@ -21,7 +21,7 @@ type C14Case struct {
 }
 
 func GenC14(t *rapid.T) *C14Case {
-	n := []int{0, 1, 2, 3, 4, 5, 6, 7, 8, 10, 12, 16}[drawIdx(t, 12, "n")]
+	n := []int{0, 1, 2, 3, 4, 5, 6, 7, 8, 10, 12, 16, 5, 7, 9, 33, 64, 65, 100, 130}[drawIdx(t, 20, "n")]
 	// a small alphabet with repetition: 2-4 kinds out of 7
 	nk := drawInt(t, 1, 4, "nk")
 	alphabet := make([]Kind, nk)
